@@ -167,15 +167,32 @@ def r2(ctx, facts):
     for c in creates:
         if c not in b.reachable(0, removed=removed):
             miss_ok, why = False, "create() only reachable through the hit path"
-    seq_ok = all(b.must_pass(c, allocs)[0] and b.must_pass(c, inserts)[0] for c in creates)
-    arg_ok = all(b.arg_origin(a, 1) == ("call", creates[0], ()) for a in allocs) and \
-        all(b.arg_origin(i, 1) == ("call", creates[0], ()) and b.arg_origin(i, 2)[0] == "call" and b.arg_origin(i, 2)[1] in allocs for i in inserts)
-    id_ok = all(any(d[0] == "call" and b.term(d[1])["callee"].get("path") == "saveload::marker::Marker::id" for d in b.deps(b.arg_origin(a, 2))) for a in allocs)
-    rets_miss = [d for d in b.defs().get(0, []) if d[0] == "stmt" and d[4]["k"] == "use" and d[1] in b.reachable(creates[0])]
-    ret_ok = bool(rets_miss) and all(b.operand_origin(d[4]["ops"][0]) == ("call", creates[0], ()) for d in rets_miss)
-    ok2 = miss_ok and seq_ok and arg_ok and id_ok and ret_ok and len(creates) == 1
+    # per creation site (a helper inlined at two miss paths gives two sites): this creation is followed, on every path, by an allocate and an
+    # insert for THE CREATED entity, with the marker's id, the created entity is what is returned, and no path creates twice
+    seq_ok = arg_ok = id_ok = ret_ok = once_ok = True
+    for c in creates:
+        ce = ("call", c, ())
+        reach_c = b.reachable(b.term(c)["target"]) if b.term(c).get("target") is not None else set()
+        my_allocs = [a for a in allocs if a in reach_c and b.arg_origin(a, 1) == ce]
+        my_inserts = [i for i in inserts if i in reach_c and b.arg_origin(i, 1) == ce and b.arg_origin(i, 2)[0] == "call" and b.arg_origin(i, 2)[1] in my_allocs]
+        if not (my_allocs and my_inserts and b.must_pass(c, my_allocs)[0] and b.must_pass(c, my_inserts)[0]):
+            seq_ok = False
+        if [a for a in allocs if a in reach_c and a not in my_allocs and not any(o in b.reachable(b.term(a)["target"] or 0) for o in [c])] and not my_allocs:
+            arg_ok = False
+        foreign = [x for x in allocs + inserts if x in reach_c and x not in my_allocs + my_inserts and
+                   not any(x in b.reachable(b.term(o)["target"]) for o in creates if o != c and b.term(o).get("target") is not None and o in reach_c)]
+        if foreign:
+            arg_ok = False
+        if not all(any(d[0] == "call" and b.term(d[1])["callee"].get("path") == "saveload::marker::Marker::id" for d in b.deps(b.arg_origin(a, 2))) for a in my_allocs):
+            id_ok = False
+        rets_c = [d for d in b.defs().get(0, []) if d[0] == "stmt" and d[4]["k"] == "use" and d[1] in reach_c]
+        if not rets_c or not all(b.operand_origin(d[4]["ops"][0], at=(d[1], d[2])) == ce for d in rets_c):
+            ret_ok = False
+        if any(o in reach_c for o in creates):
+            once_ok = False
+    ok2 = miss_ok and seq_ok and arg_ok and id_ok and ret_ok and once_ok
     ctx.ob("C15-R2", "unknown marker: one entity is created, given the marker's id and returned", ok2, b.loc(creates[0]),
-           "" if ok2 else why or "create->allocate->insert on every path: %s; allocate/insert for the created entity: %s; allocate with the marker's id: %s; returns the created entity: %s; creates: %d" % (seq_ok, arg_ok, id_ok, ret_ok, len(creates)))
+           "" if ok2 else why or "create->allocate->insert on every path: %s; allocate/insert for the created entity: %s; allocate with the marker's id: %s; returns the created entity: %s; at most one creation per path: %s (creation sites: %d)" % (seq_ok, arg_ok, id_ok, ret_ok, once_ok, len(creates)))
     # every path that is not the hit path creates
     okall, wit = b.must_pass(0, creates, removed={some2[0]})
     ctx.ob("C15-R2", "every miss path creates the entity", okall, b.loc(), "" if okall else "a path that misses the lookup returns without creating: %s" % b.fmt_path(wit))
